@@ -4,6 +4,7 @@ import (
 	"crypto"
 	"crypto/x509"
 	"encoding/xml"
+	"errors"
 	"fmt"
 	"io"
 	"net/http"
@@ -93,10 +94,12 @@ type c06Case struct {
 	post       bool
 	acsService bool
 	nEndpoints int
+	mixed      bool // endpoints of other bindings (Redirect, Artifact) at their own locations among the POST ones
+	faultFirst bool // another session's response to a client whose connection fails part-way is served first
 }
 
 func (k c06Case) String() string {
-	return fmt.Sprintf("initiated=%v byIndex=%v byDefault=%v encrypt=%v signer=%v method=%q interm=%v reqOffset=%v D=%v S=%v post=%v attrsvc=%v endpoints=%d", k.initiated, k.byIndex, k.byDefault, k.encrypt, k.signer, shortAlg(k.method), k.interm, k.reqOffset, k.tol.D, k.tol.S, k.post, k.acsService, k.nEndpoints)
+	return fmt.Sprintf("initiated=%v byIndex=%v byDefault=%v encrypt=%v signer=%v method=%q interm=%v reqOffset=%v D=%v S=%v post=%v attrsvc=%v endpoints=%d mixed=%v faultFirst=%v", k.initiated, k.byIndex, k.byDefault, k.encrypt, k.signer, shortAlg(k.method), k.interm, k.reqOffset, k.tol.D, k.tol.S, k.post, k.acsService, k.nEndpoints, k.mixed, k.faultFirst)
 }
 
 func runC06(c *core.Ctx) {
@@ -111,6 +114,8 @@ func runC06(c *core.Ctx) {
 		r := c.Rng
 		tol := c02Tols[r.Intn(len(c02Tols))]
 		k := c06Case{initiated: r.Intn(5) == 0, byIndex: r.Intn(3) == 0, byDefault: r.Intn(4) == 0, encrypt: r.Intn(2) == 0, signer: r.Intn(3) == 0, method: methods[i%5], interm: r.Intn(4) == 0, tol: tol, post: r.Intn(2) == 0, acsService: r.Intn(2) == 0, nEndpoints: 1 + r.Intn(4)}
+		k.mixed = r.Intn(3) == 0
+		k.faultFirst = r.Intn(6) == 0
 		offs := []time.Duration{0, -tol.D + time.Millisecond, -tol.D / 2, -2 * tol.S, -tol.S - time.Millisecond, -tol.S + time.Millisecond, 10 * time.Second}
 		k.reqOffset = offs[r.Intn(len(offs))]
 		if k.reqOffset < -tol.D { // would be stale: keep inside the window
@@ -145,6 +150,9 @@ func c06Run(c *core.Ctx, k c06Case) {
 	desc := saml.SPSSODescriptor{}
 	for e := 0; e < k.nEndpoints; e++ {
 		ep := saml.IndexedEndpoint{Binding: saml.HTTPPostBinding, Location: fmt.Sprintf("https://sp.example.com/saml/acs%d", e), Index: e + 1}
+		if k.mixed {
+			ep.Binding = []string{saml.HTTPPostBinding, saml.HTTPPostBinding, saml.HTTPRedirectBinding, saml.HTTPArtifactBinding}[c.Rng.Intn(4)]
+		}
 		if e == k.nEndpoints-1 && c.Rng.Intn(2) == 0 {
 			ep.IsDefault = boolPtr(true)
 		}
@@ -178,20 +186,28 @@ func c06Run(c *core.Ctx, k c06Case) {
 	w.Registry[so.SPMeta] = &mdParsed
 	sessA, sessB := taggedSession(c, "A"), taggedSession(c, "B")
 	w.Session = sessA
-	_ = sessB
 
 	const reqID = "id-request-c06-0123456789abcdef"
 	var rec *httptest.ResponseRecorder
 	var wantEP epTriple
 	relay := []string{"relay⟨R⟩", "", "x", strings.Repeat("r", 41), strings.Repeat("ab&=#%+ \"'<>", 20), "https://sp.example.com/deep/link?a=b&c=d#frag", strings.Repeat("€", 90)}[c.Rng.Intn(7)]
+	var serve func(rw http.ResponseWriter) bool
 	if k.initiated {
-		rec = httptest.NewRecorder()
-		r := httptest.NewRequest("GET", "https://idp.example.com/login/x", nil)
-		if p, pv, frame, _ := core.Guard(func() { w.IDP.ServeIDPInitiated(rec, r, so.SPMeta, relay) }); p {
-			c.Violation("C06/panic/"+frame, fmt.Sprint(pv), k.String())
-			return
+		serve = func(rw http.ResponseWriter) bool {
+			r := httptest.NewRequest("GET", "https://idp.example.com/login/x", nil)
+			if p, pv, frame, _ := core.Guard(func() { w.IDP.ServeIDPInitiated(rw, r, so.SPMeta, relay) }); p {
+				c.Violation("C06/panic/"+frame, fmt.Sprint(pv), k.String())
+				return false
+			}
+			return true
 		}
-		wantEP = epTriple{saml.HTTPPostBinding, "https://sp.example.com/saml/acs0", 1}
+		// IdP-initiated launches go to the first registered HTTP-POST endpoint
+		for _, e := range registered(&mdParsed) {
+			if e.Binding == saml.HTTPPostBinding {
+				wantEP = e
+				break
+			}
+		}
 	} else {
 		f := string(saml.TransientNameIDFormat)
 		ar := saml.AuthnRequest{ID: reqID, Version: "2.0", IssueInstant: now.Add(k.reqOffset).Truncate(time.Millisecond), Destination: so.IDPSSO, Issuer: &saml.Issuer{Value: so.SPMeta}, NameIDPolicy: &saml.NameIDPolicy{Format: &f}}
@@ -213,22 +229,39 @@ func c06Run(c *core.Ctx, k c06Case) {
 		var ok bool
 		wantEP, ok = c05Select(&mdParsed, reqURL, reqIdx)
 		if !ok {
-			c.Inconclusive("reference selection found no endpoint")
-			return
+			wantEP = epTriple{} // no usable endpoint: nothing may be emitted
 		}
 		raw := so.Bytes(ar.Element())
-		var hr *http.Request
-		if k.post {
-			hr = so.SSORequestPOST(so.IDPSSO, raw, relay)
-		} else {
-			hr = so.SSORequestGET(so.IDPSSO, raw, relay)
+		serve = func(rw http.ResponseWriter) bool {
+			var hr *http.Request
+			if k.post {
+				hr = so.SSORequestPOST(so.IDPSSO, raw, relay)
+			} else {
+				hr = so.SSORequestGET(so.IDPSSO, raw, relay)
+			}
+			hr.RemoteAddr = "198.51.100.7:4711"
+			if p, pv, frame, _ := core.Guard(func() { w.IDP.ServeSSO(rw, hr) }); p {
+				c.Violation("C06/panic/"+frame, fmt.Sprint(pv), k.String())
+				return false
+			}
+			return true
 		}
-		hr.RemoteAddr = "198.51.100.7:4711"
-		rec = httptest.NewRecorder()
-		if p, pv, frame, _ := core.Guard(func() { w.IDP.ServeSSO(rec, hr) }); p {
-			c.Violation("C06/panic/"+frame, fmt.Sprint(pv), k.String())
+	}
+	if k.faultFirst {
+		// session B logs in first, through a connection that breaks after a few hundred bytes of the form
+		w.Session = sessB
+		fw := &failingWriter{h: http.Header{}, budget: 100 + c.Rng.Intn(900)}
+		if !serve(fw) {
 			return
 		}
+		if fw.failed {
+			c.Count("preceding_responses_cut_off_by_write_fault")
+		}
+		w.Session = sessA
+	}
+	rec = httptest.NewRecorder()
+	if !serve(rec) {
+		return
 	}
 	c.Eval()
 	body := rec.Body.Bytes()
@@ -239,6 +272,11 @@ func c06Run(c *core.Ctx, k c06Case) {
 		return
 	}
 	if em == nil {
+		if wantEP.Binding != saml.HTTPPostBinding { // the selected endpoint cannot take a POST form: the IdP has to refuse
+			c.Nontrivial(k.String())
+			c.Count("nothing_emitted_for_endpoint_without_post_binding")
+			return
+		}
 		c.Inconclusive(fmt.Sprintf("no SAMLResponse emitted (status %d)", rec.Code))
 		return
 	}
@@ -410,4 +448,24 @@ func detach(el *etree.Element) *etree.Element {
 
 func verifyChild(el *etree.Element, cert *x509.Certificate, method string) error {
 	return so.VerifyEnveloped(detach(el), cert, method)
+}
+
+// failingWriter is a client connection that accepts budget bytes and then fails every write.
+type failingWriter struct {
+	h      http.Header
+	budget int
+	failed bool
+}
+
+func (f *failingWriter) Header() http.Header { return f.h }
+func (f *failingWriter) WriteHeader(int)     {}
+func (f *failingWriter) Write(b []byte) (int, error) {
+	if len(b) <= f.budget {
+		f.budget -= len(b)
+		return len(b), nil
+	}
+	n := f.budget
+	f.budget = 0
+	f.failed = true
+	return n, errors.New("injected: connection reset by peer")
 }
